@@ -465,7 +465,11 @@ class ExpressionPrinter(object):
         elif is_constant_node(node.slice, ast.Ellipsis):
             self.visit_Ellipsis(node)
         elif sys.version_info >= (3, 9) and isinstance(node.slice, ast.Tuple):
-            self.visit_Tuple(node.slice)
+            if sys.version_info < (3, 11) and [n for n in node.slice.elts if isinstance(n, ast.Starred)]:
+                # Unparenthesized starred expressions in subscripts are only allowed since Python 3.11
+                self._expression(node.slice)
+            else:
+                self.visit_Tuple(node.slice)
         elif sys.version_info >= (3, 9):
             self._expression(node.slice)
         else:
